@@ -111,7 +111,19 @@ CtxLeanAlphabet(t) ==
 CtxLeanResizes(t) == {<<c, r>> \in {<<2, 2>>, <<4, 5>>} : <<c, r>> # <<t.cols, t.rows>>}
 CtxResizes(t) == {<<c, r>> \in {<<1, 1>>, <<2, 2>>, <<3, 3>>, <<4, 5>>} : <<c, r>> # <<t.cols, t.rows>>}
 
-\* ------------------------------------------------------------- C10: reflow
+\* ------------------------------------------------------------- C11: dump / restore
+Raw(s) == [f |-> "Raw", a |-> s]
+DumpAlphabet(t) ==
+     {F1("Print", 97), F0("Cr"), F0("Lf"), F0("So"), F1("Gzd4", 1), F1("G1d4", 1), F0("Hts"), F1("Tbc", 3), F0("Decsc")}
+  \cup {FS(f, <<m>>) : f \in {"Decset", "Decrst"}, m \in {1, 6, 7, 25, 1047}}
+  \cup {FS("Sm", <<4>>), FS("Sm", <<20>>), FS("Sgr", <<<<7, 0>>>>), FS("Sgr", <<<<48, 200>>>>)}
+  \cup {F2("Cup", t.rows, t.cols), F2("Cup", 1, 2), F2("Decstbm", 2, t.rows), F2("Decstbm", 1, t.rows - 1)}
+  \cup {Raw(<<27, 91>>), Raw(<<27, 91, 51>>), Raw(<<27, 91, 63, 50>>), Raw(<<27, 93, 97>>), Raw(<<27, 80, 49>>), Raw(<<27>>), Raw(<<27, 40>>)}
+DumpSizes == {<<3, 3>>, <<2, 2>>}
+DumpSizesQ == {<<3, 3>>}
+DumpResizes(t) == {}
+DumpFills == {<<>>, <<65, 65, 65, 65, 13, 10, 66>>}
+
 ReflowAlphabet(t) ==
      {F1("Print", c) : c \in {97, 32}} \cup {F0("Cr"), F0("Lf"), F1("El", 0), F1("El", 1), F1("Ech", 1), F1("Dch", 1)}
   \cup {F1("Cuu", 1), F1("Cuf", 1), F1("Cub", 1), FS("Sgr", <<<<48, 4>>>>), FS("Sgr", <<<<0, 0>>>>)}
